@@ -17,7 +17,7 @@ from ..core import Clause, Out
 LEVEL = "exploration"
 ASSUMPTIONS = [
     "closed-form solutions of the test ODE families are evaluated with numpy in double precision",
-    "order is judged only when all three sup-norm errors lie in the asymptotic window [1e-11,5e-2]*scale; a case is a violation only if BOTH successive order estimates fall below nominal-0.35",
+    "order is judged only when all three sup-norm errors lie in the asymptotic window [1e-11,5e-2]*scale; a case is a violation only if BOTH successive order estimates fall below nominal-0.35 and a third estimate from a further halving (h/8, if still inside the window) does too",
 ]
 
 FAMILIES = ["exp", "logistic", "osc", "lin2", "cos", "poly", "forced", "atx", "forcedosc"]
@@ -128,7 +128,12 @@ def sup_error(case, refine):
     h = case["h"] / refine
     n = case["nsteps"] * refine
     m = make_model(f, y0, case["t0"], h)
-    m.solve(n * h, solverType=_iter(case["iterator"]), minDtFrac=1e-12, maxDtFrac=1)
+    # the duration need not be a multiple of the step: a tail (fraction of the coarsest step) leaves a shorter last step,
+    # and the minimum step fraction is an input of solve() like any other
+    total = (case["nsteps"] + case.get("tail", 0.0)) * case["h"]
+    m.solve(total, solverType=_iter(case["iterator"]), minDtFrac=case.get("minfrac", 1e-12), maxDtFrac=1)
+    if abs(m.t[-1] - (case["t0"] + total)) > 4 * np.spacing(abs(case["t0"]) + total):
+        return float("nan"), 1.0, len(m.t) - 1
     ts = np.array(m.t)
     err = 0.0
     scale = 0.0
@@ -148,6 +153,8 @@ def check_order(case):
     sc = max(sc, 1e-3)
     lo, hi = 1e-11 * sc, 5e-2 * sc
     out.label("fam_" + case["family"], case["iterator"])
+    if case.get("tail"):
+        out.label("short_last_step", "tail_below_min_step" if case["tail"] * case["h"] < case.get("minfrac", 0) * (case["nsteps"] + case["tail"]) * case["h"] else "tail_above_min_step")
     if not (all(np.isfinite([e1, e2, e3])) and lo <= e3 and e1 <= hi and e2 >= lo):
         out.label("out_of_regime")
         return out
@@ -157,8 +164,16 @@ def check_order(case):
     out.label("judged")
     out.nt(case["family"] in NONAUTO)
     if max(p1, p2) < nominal - 0.35:
+        # both estimates low: either the scheme is below its order or the coarse steps are still pre-asymptotic
+        # (some families approach the order from below: 3.4, 3.6, 3.85); one more halving decides
+        e4, _, n4 = sup_error(case, 8)
+        p3 = math.log2(e3 / e4) if (np.isfinite(e4) and e4 >= lo) else None
+        if p3 is None or p3 >= nominal - 0.35:
+            out.label("preasymptotic_resolved_by_h8" if p3 is not None else "h8_below_window")
+            return out
+        out.info["p3"] = p3
         out.fail("order_below_nominal", "%s on %s: observed orders %.2f, %.2f < nominal %d (errors %.3e %.3e %.3e)"
-                 % (case["iterator"], case["family"], p1, p2, nominal, e1, e2, e3), p1=p1, p2=p2)
+                 % (case["iterator"], case["family"], p1, p2, nominal, e1, e2, e3) + "; at h/8: order %.2f (error %.3e)" % (p3, e4), p1=p1, p2=p2)
     return out
 
 
@@ -238,6 +253,13 @@ def _case(iterators, fams):
         h = rh / max(rate, 1e-3)
         case["h"] = h
         case["nsteps"] = max(4, int(round(span / max(rate, 1e-3) / h)))
+        tail = draw(st.sampled_from([0.0, 0.0, 0.5, 0.3, 1e-1, 1e-2, 1e-3]))
+        if tail:
+            case["tail"] = tail
+        mk = draw(st.sampled_from(["tiny", "tiny", "default", "above_tail", "quarter_step"]))
+        T = (case["nsteps"] + tail)
+        cap = 0.1 / T                      # the minimum step stays below the finest step used (h/8)
+        case["minfrac"] = {"tiny": 1e-12, "default": 1e-8, "above_tail": min(cap, 2 * tail / T) if tail else 1e-8, "quarter_step": cap}[mk]
         return case
     return s()
 
@@ -261,7 +283,7 @@ def clauses():
     return [
         Clause("order", lambda: _case(["euler", "rk4"], FAMILIES), check_order, quick=480, thorough=12000,
                rule="generator: closed-form ODE family x params x initial value x start time x step (rate*h in [1e-3,1e-2] Euler, [0.03,0.25] RK4), "
-                    "constant step through getDt, three resolutions h,h/2,h/4; non-trivial: non-autonomous family judged inside the asymptotic window",
+                    "constant step through getDt, three resolutions h,h/2,h/4, through solve() with duration = (n + tail) steps (tail in {0, 1e-3..0.5}) and minDtFrac in {1e-12, 1e-8, 2 tail/n, 0.1/n}; non-trivial: non-autonomous family judged inside the asymptotic window",
                shrink=False),
         Clause("stages", _stage_case, check_stages, quick=2000, thorough=60000,
                rule="generator: iterator x t0 in [0,1e6] x dt in [1e-6,1e3] x state length 1-5; the iterator is called directly with a recording f and through solve(); "
